@@ -1,6 +1,6 @@
 # C18 — type-erased senders and functions behave like what they wrap (structural part; DESIGN.md §5 C18)
 import re
-from engine.core import is_moved, AnalysisBroken, P, T, callee_of, callee_short, cond_atoms, loc_of, strip, block_path
+from engine.core import forward, is_moved, AnalysisBroken, P, T, callee_of, callee_short, cond_atoms, loc_of, strip, block_path
 from engine.kinds import FactFlow, CountFlow, precedes_on_all_paths, always_followed_by, eval_walk
 from .common import facts, lib, driver, witness
 
@@ -16,7 +16,7 @@ EXPLANATION = (
     "unique_any_sender does not convert to any_sender (R4). Not decided: observational equivalence of wrapped and "
     "unwrapped executions.")
 ASSUMPTIONS = ["the default configuration (PIKA_DETAIL_ENABLE_ANY_SENDER_SBO off) stores every sender on the heap; the embedded-storage configuration is analysed in the thorough tier"]
-FLOORS = {"C18.R1": 10, "C18.R2": 4, "C18.R3": 4, "C18.R4": 7, "C18.R5": 1, "C18.R6": 6, "C18.R7": 2}
+FLOORS = {"C18.R1": 10, "C18.R2": 4, "C18.R3": 4, "C18.R4": 7, "C18.R5": 1, "C18.R6": 6, "C18.R7": 2, "C18.R8": 3}
 
 MS = "pika::detail::movable_sbo_storage"
 CS = "pika::detail::copyable_sbo_storage"
@@ -189,6 +189,10 @@ def run(rep, tier):
     rep.rule("C18.R7", "K9 (value category is preserved through the forwarding members): reset(Sender&&) of any_sender / unique_any_sender is a forwarding function; in the "
              "instantiations where the argument is an lvalue (Sender = any_sender&, any_sender const&) the wrapper is *copied* - the assignment / store it reaches takes "
              "the argument as an lvalue - and the caller's wrapper keeps its sender ('copies of a copyable wrapper are independent'); only the rvalue instantiations move")
+    rep.rule("C18.R8", "K2 (typestate of the wrapper across a throwing assignment): function_base::op_assign(copy) and basic_function::assign(F&&) destroy the old target and then "
+             "construct the new one, which can throw (allocation, the target's copy / move constructor). While the old target is destroyed but 'object' still points at it "
+             "(after destroy() without reset, after an explicit ~T(), inside copy(.., destroy = true)) no operation that can throw runs outside a try block, and every handler "
+             "reaches its rethrow with object == nullptr: otherwise the wrapper's destructor destroys the dead target again (or a target of the wrong type)")
     rep.rule("C18.R6", "K3: the type-erased layers change nothing observable: any_receiver::set_error / set_stopped and any_receiver_ref::set_value / set_error / set_stopped call the "
              "same member of what they wrap exactly once on every path; any_operation_state_holder_impl::start, any_operation_state_holder::start and any_operation_state::start "
              "start the operation they hold exactly once - a layer that drops the call leaves the wrapped pipeline without a completion / never started")
@@ -416,3 +420,60 @@ def run(rep, tier):
                 rep.ok("C18.R7", fn, "reset(%s) passes its argument on as an lvalue (copy)" % ptype)
     if n7 < 2:
         raise AnalysisBroken("C18.R7: reset() is not instantiated for lvalue arguments (%d uses)" % n7)
+
+    # ---- R8: no throwing operation while 'object' points at a destroyed target
+    FB8 = facts(rep, lib("functional", "src/basic_function.cpp"), [r"^pika::util::detail::function_base::op_assign$"])
+    AS8 = facts(rep, driver("c18_erasure.cpp"), [r"^pika::util::detail::basic_function::assign$"])
+    cands = [f for f in FB8.fns if f.parent == -1 and f.params and "&&" not in (f.params[0].get("type") or "")] + \
+        [f for f in AS8.fns if f.parent == -1 and not f.pattern and f.params and "nullptr" not in (f.params[0].get("type") or "")][:2]
+    if len(cands) < 2:
+        raise AnalysisBroken("C18.R8: op_assign(copy) / basic_function::assign(F&&) not found (%d)" % len(cands))
+    for fn in cands:
+        short8 = fn.qname.rsplit("::", 2)[-2] + "::" + fn.qname.rsplit("::", 1)[-1]
+
+        def kills(e):
+            if e.get("k") != "call":
+                return False
+            cs = callee_short(e) or ""
+            if cs == "destroy" and (e.get("recv") is None or P(e["recv"]) == "this"):
+                return True
+            if cs.startswith("~") or T(e).endswith(".~()"):
+                return True
+            return False
+
+        def heals(e):
+            if e.get("k") == "call" and callee_short(e) == "reset" and (e.get("recv") is None or P(e["recv"]) == "this"):
+                return True
+            return e.get("k") == "write" and P(e["lhs"]) == "this->object"
+
+        def may_throw(e):
+            if e.get("k") == "call" and callee_short(e) in ("allocate", "copy"):
+                return True
+            return e.get("k") in ("new",) or (e.get("k") == "ctor" and e.get("var") is None and "vtable" not in str(e.get("rec")))
+        DIRTY = "dirty"
+
+        def tr8(st, e, pos):
+            if kills(e):
+                return frozenset([DIRTY])
+            if heals(e):
+                return frozenset()
+            return st
+        before8, _, _ = forward(fn, frozenset(), tr8, None, lambda a, b: a | b, eh=True)
+        bad8 = None
+        for b, i, e in fn.all_events():
+            if not may_throw(e):
+                continue
+            dirty = DIRTY in (before8.get((b, i)) or frozenset())
+            inplace = e.get("k") == "call" and callee_short(e) == "copy" and e.get("args") and T(strip(e["args"][-1])) == "true"
+            if (dirty or inplace) and "try" not in e:
+                bad8 = bad8 or (e, "runs %s outside a try block while 'object' still points at the destroyed old target" % T(e)[:60])
+        for b, i, e in fn.all_events():
+            if e.get("k") == "throw" and e.get("e") is None:
+                if not precedes_on_all_paths(fn, lambda x: x.get("k") == "write" and P(x["lhs"]) == "this->object" and T(strip(x.get("rhs"))) == "nullptr", (b, i), eh=True):
+                    bad8 = bad8 or (e, "rethrows from its handler without having set object = nullptr")
+        if bad8:
+            rep.bad("C18.R8", fn, loc_of(bad8[0]), "throwing-assign:" + short8, "%s %s: when the new target's allocation or constructor throws, the wrapper is left non-empty with 'object' "
+                    "pointing at a destroyed (or differently typed) target, and its destructor destroys it again" % (short8, bad8[1]))
+        else:
+            rep.ok("C18.R8", fn, "%s: the wrapper is empty, or inside a try block whose handler empties it, whenever constructing the new target can throw" % short8)
+
